@@ -22,6 +22,7 @@ import GrcovModel.Lemmas.Lcov
 import GrcovModel.Props.C10
 import GrcovModel.Props.C14Gcno
 import GrcovModel.Props.C14GcnoCost
+import GrcovModel.Props.C14Text
 namespace Grcov.Props.C14
 open Grcov Grcov.Lcov
 
